@@ -227,17 +227,18 @@ def run_case(case):
             e3 = e["variants"][case["variant"]]()
             K.fit(e3, kind, d3)
             P3 = numpy.vstack([d3["X"], d3["X"] * 1.0000001 + 1e-7])
-            for mm in methods:
-                first = _call(e3, mm, P3, kind)
+            first = {mm: _call(e3, mm, P3, kind) for mm in methods}          # every method first ...
+            for mm in methods:                                                # ... then every method on other dtypes ...
                 for dt in (numpy.float32, numpy.int64):
                     try:
                         _call(e3, mm, P3.astype(dt), kind)
                     except Exception:
                         pass
+            for mm in methods:                                                # ... then every method again
                 again = _call(e3, mm, P3, kind)
                 cnt += 3
-                if not _eq_exact(first, again):
-                    bad("%s: repeated calls disagree after a call with another dtype" % mm, "float32/int64 batch in between", desc0)
+                if not _eq_exact(first[mm], again):
+                    bad("%s: repeated calls disagree after calls with another dtype" % mm, "float32/int64 batch in between", desc0)
         except Exception:
             pass     # fitting on the rescaled data is not this clause's business
     # persistence
